@@ -1,5 +1,12 @@
-# sourced by every script: offline Go environment
+# sourced by every script: offline Go environment; VERIF_ROOT is the directory that holds this scripts/ directory
+# (normally /verif; a snapshot made by `vp run` works the same way from its own path)
+if [ -z "$VERIF_ROOT_FIXED" ]; then
+  _here="$(cd "$(dirname "$0")/.." 2>/dev/null && pwd)"
+  case "$_here" in */) ;; esac
+  VERIF_ROOT="${_here:-/verif}"
+  [ -f "$VERIF_ROOT/scripts/env.sh" ] || VERIF_ROOT=/verif
+fi
+export VERIF_ROOT
 export GOFLAGS=-mod=mod GOPROXY=off GOSUMDB=off GOTOOLCHAIN=local
 export GOCACHE=/verif/.gocache
 export CARGO_NET_OFFLINE=true PIP_NO_INDEX=1
-export VERIF_ROOT=/verif
